@@ -253,8 +253,14 @@ def run(chk):
     enc = p.method(U + "authenticate::AuthenticationResponse", "encode")
     if chk.require("R4 encodings", "R4|AuthenticationResponse::encode", enc, U, "AuthenticationResponse::encode not found"):
         chk.touched(enc)
-        v = flow.simplify_term(flow.Terms(p, enc).place(0, (), enc.return_blocks()[0], "t"))
-        sc = segs_of(v)
+        v = N.norm(flow.Terms(p, enc).place(0, (), enc.return_blocks()[0], "t"))
+        sc = flow.expand_byte_calls(p, N, segs_of(v))
+        # the presence byte: the flags member as its u8 (`.into()`, `u8::from`, `.bits()`)
+        if sc and isinstance(sc[0], tuple) and sc[0][:1] == ("array",) and len(sc[0][1]) == 1:
+            e0 = sc[0][1][0]
+            while isinstance(e0, tuple) and len(e0) == 4 and e0[0] == "call" and len(e0[2]) == 1 and (is_call(e0, "Into::into") or is_call(e0, "From::from") or e0[1].endswith("Flags::bits") or e0[1].endswith("::bits")):
+                e0 = e0[2][0]
+            sc = [("array", (e0,))] + list(sc[1:])
         ok = len(sc) == 4 and sc[0] == ("array", (("field", ("param", 1), "user_presence"),)) and is_call(sc[1], "u32::to_be_bytes") and sc[1][2][0] == ("field", ("param", 1), "counter") and sc[2] == ("field", ("param", 1), "signature") \
             and is_call(sc[3], "u16::to_be_bytes") and has(sc[3], lambda x: isinstance(x, tuple) and len(x) == 4 and x[0] == "agg" and x[2] == "NoError")
         chk.ob("R4 encodings", "R4|AuthenticationResponse::encode|layout", ok, where(enc), "segments: %s" % [flow.term_str(x)[:40] for x in sc])
